@@ -136,6 +136,90 @@ def _ops(r, g, arr, qarr, trees, fns, pref, depth, n):
 
 
 # ------------------------------------------------------------------------------------------
+_SRC = {}
+
+
+def _sources():
+    import glob
+    import os
+
+    from ..core import JT_DIR
+
+    if not _SRC:
+        for f in glob.glob(os.path.join(JT_DIR, "*.py")) + glob.glob(os.path.join(JT_DIR, "_typeguard", "*.py")):
+            try:
+                _SRC[os.path.basename(f)] = open(f).read().splitlines()
+            except OSError:
+                pass
+    return _SRC
+
+
+def _fp(v):
+    try:
+        if isinstance(v, dict):
+            return ("dict", len(v), tuple(repr(k)[:30] for k in list(v)[:6]))
+        if isinstance(v, (list, set, frozenset, tuple)):
+            return (type(v).__name__, len(v))
+        return ("obj", id(v))
+    except Exception:
+        return ("?",)
+
+
+def _shared_state_fingerprint(interp):
+    """Names of process-wide mutable state (module-level containers and objects of the library, attributes of the annotation
+    classes this run uses and of the library's own classes) with a cheap fingerprint of their value."""
+    import sys
+    import threading
+    import types
+
+    out = {}
+    for mname, mod in list(sys.modules.items()):
+        if not (mname == "jaxtyping" or mname.startswith("jaxtyping.")) or mod is None:
+            continue
+        for name, v in list(vars(mod).items()):
+            if name.startswith("__") or isinstance(v, (types.ModuleType, types.FunctionType, types.BuiltinFunctionType, threading.local)):
+                continue
+            if isinstance(v, (dict, list, set)):
+                out[("g", name)] = _fp(v)
+            elif isinstance(v, type):
+                if (getattr(v, "__module__", "") or "").startswith("jaxtyping"):
+                    for an, av in list(vars(v).items()):
+                        if not an.startswith("__") and not callable(av):
+                            out[("c", an)] = _fp(av)
+            elif (getattr(type(v), "__module__", "") or "").startswith("jaxtyping") and hasattr(v, "__dict__"):
+                for an, av in list(vars(v).items()):
+                    out[("o", an)] = _fp(av)
+    for aid, ann in interp.world.anns.items():
+        if isinstance(ann, type):
+            for an, av in list(vars(ann).items()):
+                if not an.startswith("__") and not callable(av):
+                    out[("a", aid, an)] = _fp(av)
+    return out
+
+
+def _diff_names(a, b):
+    names = set()
+    for k in set(a) | set(b):
+        if a.get(k) != b.get(k):
+            names.add(k[-1] if k[0] == "a" else k[1])
+    return names
+
+
+def _lines_mentioning(names):
+    import re
+
+    out = set()
+    if not names:
+        return out
+    pat = re.compile(r"\b(" + "|".join(re.escape(n) for n in sorted(names)) + r")\b")
+    for fn, lines in _sources().items():
+        for i, ln in enumerate(lines, 1):
+            if pat.search(ln):
+                out.add((fn, i))
+                out.add((fn, i + 1))
+    return out
+
+
 def _transcripts(runs):
     return [canon(r.transcript) for r in runs]
 
@@ -146,7 +230,18 @@ def execute(scn):
     n = len(progs)
     seed = scn["seed"]
     # solo baseline (also the warm-up of every code path this scenario uses)
-    interp, runs0, sc0, _ = ctxsim.run_threads(scn, progs, {"kind": "solo"}, rng(seed, "schedule0"))
+    interp0 = ctxsim.Interp(scn)
+    ctxsim.seams.install(ctxsim.seams.SeamState()).enabled = False
+    interp0.world.build()
+    ctxsim.seams.uninstall()
+    shared0 = _shared_state_fingerprint(interp0)
+    interp, runs0, sc0, _ = ctxsim.run_threads(scn, progs, {"kind": "solo"}, rng(seed, "schedule0"), interp=interp0)
+    mutated = _diff_names(shared0, _shared_state_fingerprint(interp0))
+    for key in _lines_mentioning(mutated):
+        if key in sc0.lines_seen:
+            sc0.global_lines.add(key)
+    if mutated:
+        stats.inc("runs_with_mutated_shared_state_detected")
     solo = _transcripts(runs0)
     scn2 = dict(scn, _expected_yields=max(50, sc0.total_yields))
     if scn["sched"]["kind"] == "rendezvous" and scn["sched"].get("line") is None:
